@@ -2,7 +2,7 @@
 C04 — Parsed record header equals the header that was written.
 -/
 import LA.Proofs.AuparseHeader
-import LA.Props.C20
+import LA.Proofs.TablesRT
 import LA.Proofs.Trim
 
 namespace LA.Auparse
@@ -157,7 +157,7 @@ theorem C04_roundtrip_partial (t sec ms seq : Nat) (body rest' : Bytes) (ht : t 
     ∃ off, parseLogLine (ofString "type=" ++ typeName t ++ ofString " msg=" ++ (writtenHeader sec ms seq ++ ofString ": " ++ body)) =
       Res.ok { typ := t, sec := sec, nsec := ((ms * 1000000 : Nat) : Int), seq := seq,
                raw := trimSpace (writtenHeader sec ms seq ++ ofString ": " ++ body), offset := off } := by
-  rw [C04_parse_agrees _ _ t (typeName_no_m t) (LA.C20.C20_type_roundtrip t ht)]
+  rw [C04_parse_agrees _ _ t (typeName_no_m t) (LA.TablesRT.type_roundtrip t ht)]
   unfold parse
   simp only [bind, Bind.bind]
   rw [hk, C04_header_roundtrip sec ms seq rest' (by omega) hm hq]
